@@ -277,6 +277,16 @@ pub fn run_cases(args: &Args, f: impl Fn(u64, u64) -> Outcome + Sync) -> Agg {
         None => (0, args.cases),
     };
     let nthreads = if args.only_case.is_some() { 1 } else { args.threads.max(1) };
+    // progress log for the driver's watchdog: cases that START but never END are the suspects of a hang / abort
+    let progress = std::env::var("UVH_PROGRESS").ok().and_then(|p| std::fs::OpenOptions::new().create(true).append(true).open(p).ok()).map(Mutex::new);
+    let note = |what: &str, k: u64| {
+        if let Some(p) = &progress {
+            use std::io::Write;
+            let mut g = p.lock().unwrap();
+            let _ = writeln!(g, "{} {}", what, k);
+            let _ = g.flush();
+        }
+    };
     std::thread::scope(|s| {
         for _ in 0..nthreads {
             s.spawn(|| loop {
@@ -284,7 +294,9 @@ pub fn run_cases(args: &Args, f: impl Fn(u64, u64) -> Outcome + Sync) -> Agg {
                 if k >= hi {
                     break;
                 }
+                note("START", k);
                 let r = guard(|| f(args.seed, k));
+                note("END", k);
                 let mut a = agg.lock().unwrap();
                 a.evaluations += 1;
                 match r {
